@@ -15,7 +15,7 @@ CONSTANTS MaxSteps, Addrs, Dts, CraftToks, MaxPresent, Calls, PropsOn, Export, E
 VARIABLES w, obs, ctl, hist
 vars == <<w, obs, ctl, hist>>
 
-Cfg == [max_clients |-> MaxClients0, server_addrs |-> ServerAddrs, start_ms |-> 0, props |-> PropsOn]
+Cfg == [max_clients |-> MaxClients0, server_addrs |-> ServerAddrs, start_ms |-> 0, props |-> PropsOn, secure |-> Secure0]
 
 RECURSIVE SortedNames(_)
 SortedNames(S) == IF S = {} THEN <<>> ELSE LET m == CHOOSE x \in S : TRUE IN <<m>> \o SortedNames(S \ {m})
@@ -200,5 +200,10 @@ Clis_moved == [c1 |-> [tok |-> "T1", addr |-> 1], c1b |-> [tok |-> "T1", addr |-
 Clis_thief == [v |-> [tok |-> "TV", addr |-> 1], a |-> [tok |-> "TA", addr |-> 2], vt |-> [tok |-> "TV", addr |-> 2], v2 |-> [tok |-> "TV2", addr |-> 3]]
 Toks_sameud == [T1 |-> Tok(10, 7, <<1>>, 30, "K", "P"), T2a |-> Tok(20, 7, <<1>>, 30, "K", "P"), T2b |-> Tok(20, 7, <<1>>, 30, "K", "P")]
 Clis_sameud == [a1 |-> [tok |-> "T1", addr |-> 1], a2 |-> [tok |-> "T2a", addr |-> 1], b |-> [tok |-> "T2b", addr |-> 2]]
+\* ServerAuthentication::Unsecure: tokens sealed with the all-zero key are honoured whatever hosts they list (TZ lists another
+\* address), a token sealed with the real private key is NOT (TK), two identities and one outsider
+Toks_unsec == [TZ |-> Tok(10, 31, <<2>>, 30, "Z", "P"), TK |-> Tok(20, 61, <<1>>, 30, "K", "P"), TZ2 |-> Tok(30, 91, <<1>>, 30, "Z", "P")]
+Clis_unsec == [z |-> [tok |-> "TZ", addr |-> 1], k |-> [tok |-> "TK", addr |-> 2], z2 |-> [tok |-> "TZ2", addr |-> 3]]
+UnsecureMode == FALSE
 P_HS == <<"C05", "C10", "C17", "C19", "C04", "C13">>
 =============================================================================
